@@ -45,6 +45,7 @@ FUNS = {
     "log2": (lambda I, x: I.log(x) / I.log(2), lambda I, x: 1 / (x * I.log(2))),
     "ln": (lambda I, x: I.log(x), lambda I, x: 1 / x),
     "exp": (lambda I, x: I.exp(x), lambda I, x: I.exp(x)),
+    "sqrt": (lambda I, x: I.sqrt(x), lambda I, x: 1 / (2 * I.sqrt(x))),
     "sin": (lambda I, x: I.sin(x), lambda I, x: I.cos(x)),
     "cos": (lambda I, x: I.cos(x), lambda I, x: -I.sin(x)),
 }
@@ -59,11 +60,30 @@ def acc1(prefix, fun, s_alias, d_alias, c_bits, k, tol_abs, tol_rel_shift, must_
         name, unwind, s_alias, d_alias, inner, fun, c_bits, k, alo, blo, ahi, bhi, S, tol_abs, tol_rel_shift,
         "true" if must_ok else "false")
     x0 = c_bits / 2.0 ** fs
-    return Job(name, code, "%s::<%s,%s> for all %d operands from %.9g (bits %d): Ok%s and within %d ulp%s of the true value "
-               "(mpmath interval enclosure, linear in the operand)" % (fun, s_alias, d_alias, 1 << k, x0, c_bits,
-                                                                      " required" if must_ok else " not required", tol_abs,
-                                                                      (" + 2^-%d relative" % tol_rel_shift) if tol_rel_shift else ""),
-               timeout=timeout, inst="%s %s->%s" % (fun, s_alias, d_alias), bounds="neighbourhood of 2^%d operands" % k)
+    j = Job(name, code, "%s::<%s,%s> for all %d operands from %.9g (bits %d): Ok%s and within %d ulp%s of the true value "
+            "(mpmath interval enclosure, linear in the operand)" % (fun, s_alias, d_alias, 1 << k, x0, c_bits,
+                                                                   " required" if must_ok else " not required", tol_abs,
+                                                                   (" + 2^-%d relative" % tol_rel_shift) if tol_rel_shift else ""),
+            timeout=timeout, inst="%s %s->%s" % (fun, s_alias, d_alias), bounds="neighbourhood of 2^%d operands" % k)
+    if k == 0:
+        j.concrete = "vec![]"
+        j.bounds = "ONE operand (a constant folded by the solver's front end): a witness on this type pair, not a universally quantified obligation"
+    return j
+
+
+def acc1v(prefix, fun, alias, c_bits, k, tol_abs, unwind, timeout=900, tag=None):
+    """value-returning function (sin, cos) at one operand / on a neighbourhood of 2^k operands"""
+    inner, w, f, sg = T.TYPES[alias]
+    alo, blo, ahi, bhi = enclosure(FUNS[fun][0], FUNS[fun][1], c_bits, k, f, f)
+    name = "%s_%s_%s_%s" % (prefix, fun, alias.lower(), tag or ("p%d" % c_bits).replace("-", "m"))
+    code = "tr_acc1v!(%s, %d, %s, %s, %s, %d, %d, %d, %d, %d, %d, %d, %d);" % (name, unwind, alias, inner, fun, c_bits, k, alo, blo, ahi, bhi, S, tol_abs)
+    j = Job(name, code, "%s::<%s> for the %d operand(s) from %.9g (bits %d): within %d ulp of the true value (mpmath interval enclosure)"
+            % (fun, alias, 1 << k, c_bits / 2.0 ** f, c_bits, tol_abs), timeout=timeout, inst="%s %s" % (fun, alias),
+            bounds="neighbourhood of 2^%d operands" % k)
+    if k == 0:
+        j.concrete = "vec![]"
+        j.bounds = "ONE operand (a constant folded by the solver's front end): a witness on this type, not a universally quantified obligation"
+    return j
 
 
 def sqrt_job(prefix, s_alias, d_alias, c_bits, k, must_ok, unwind, timeout=1800, kf=None, tag=None):
@@ -78,7 +98,7 @@ def sqrt_job(prefix, s_alias, d_alias, c_bits, k, must_ok, unwind, timeout=1800,
                                                              " required" if must_ok else " not required"),
             timeout=timeout, inst="sqrt %s->%s" % (s_alias, d_alias), bounds="neighbourhood of 2^%d operands" % k, kf=kf)
     if k == 0:
-        j.concrete = "vec![vec![0, 0, 0, 0]]"   # the offset t: u32 is forced to 0
+        j.concrete = "vec![]"   # no symbolic input at all
     return j
 
 
